@@ -113,6 +113,15 @@ impl BlteBuilder {
             self.chunks.push(chunk);
         } else {
             // Multiple chunks
+            if self.chunk_size == 0 {
+                // A zero chunk size (only reachable through
+                // with_chunk_size_unchecked) would never advance the offset
+                return Err(BlteError::InvalidChunkSize {
+                    size: 0,
+                    min: MIN_CHUNK_SIZE,
+                    max: MAX_CHUNK_SIZE,
+                });
+            }
             let mut offset = 0;
             let mut chunk_index = self.chunks.len();
             while offset < data.len() {
@@ -164,6 +173,13 @@ impl BlteBuilder {
             self.chunks.push(chunk);
         } else {
             // Multiple chunks
+            if self.chunk_size == 0 {
+                return Err(BlteError::InvalidChunkSize {
+                    size: 0,
+                    min: MIN_CHUNK_SIZE,
+                    max: MAX_CHUNK_SIZE,
+                });
+            }
             let mut offset = 0;
             let mut chunk_index = self.chunks.len();
             while offset < data.len() {
